@@ -1,2 +1,2 @@
-import sys; sys.path.insert(0,'/tmp/fixes'); from edit import rep
+import sys; sys.path.insert(0,'/verif/tools'); from edit import rep
 rep('segno/writers.py', "    if color[0] == '#':\n        color = color[1:]", "    if color[:1] == '#':\n        color = color[1:]")
